@@ -3,13 +3,14 @@
    and nat stay the extracted inductive types (no 63-bit overflow). *)
 Require Extraction.
 Require Import ExtrOcamlBasic.
-From Gopar Require Import Model.Base Model.GF16 Model.Kernels Model.Matrix Model.RS16 Model.Parallel Model.CRC Model.GoPath Model.FS Model.Par2 Model.Par2Spec Model.GF8 Model.Par1 Model.CLI.
+From Gopar Require Import Model.Base Model.GF16 Model.Kernels Model.Ssse3 Model.Matrix Model.RS16 Model.Parallel Model.CRC Model.GoPath Model.FS Model.Par2 Model.Par2Spec Model.GF8 Model.Par1 Model.CLI.
 Extraction Language OCaml.
 Set Extraction Optimize.
 Extraction "model.ml"
   clmul pmod fmul fpow hmul qpow
   Poly64_Times Poly64_Div Poly64_Times_spec Poly64_Div_check tables_init the_tables T_Times T_Inverse T_Div T_Pow
   kernel kspec_fast kern_scalar_asm_with asm_count_legacy
+  std_to_alt alt_to_std mul_alt mul_std muladd_std ssse3_chunks
   RowReduce16 Inverse16 Times16 Times16_checked mmul16
   new_coder gen_parity reconstruct erase all_generators
   apply_matrix par_params chunks
